@@ -17,6 +17,21 @@ theorem lawful_cmpDesc : LawfulCmp cmpDesc where
   flip := fun a b => by unfold cmpDesc; constructor <;> intro h <;> (repeat' split at *) <;> omega
   trans := fun a b c h1 h2 => by unfold cmpDesc at *; (repeat' split at *) <;> omega
 
+theorem lawful_cmpDiff : LawfulCmp cmpDiff where
+  eq_iff := fun a b => by unfold cmpDiff; omega
+  flip := fun a b => by unfold cmpDiff; omega
+  trans := fun a b c h1 h2 => by unfold cmpDiff at *; omega
+
+theorem lawful_cmpDiff7 : LawfulCmp cmpDiff7 where
+  eq_iff := fun a b => by unfold cmpDiff7; omega
+  flip := fun a b => by unfold cmpDiff7; omega
+  trans := fun a b c h1 h2 => by unfold cmpDiff7 at *; omega
+
+theorem lawful_cmpRDiff : LawfulCmp cmpRDiff where
+  eq_iff := fun a b => by unfold cmpRDiff; omega
+  flip := fun a b => by unfold cmpRDiff; omega
+  trans := fun a b c h1 h2 => by unfold cmpRDiff at *; omega
+
 /-- `ok` with a decidable check on the result (for the non-vacuity examples) -/
 def okAnd {α : Type} (o : Outcome α) (p : α → Bool) : Bool :=
   match o with
